@@ -883,7 +883,7 @@ class Gen:
         if is_scalar(v):
             k = ordered_kind(v)
             c = r.random()
-            if k == 's' and v[1].endswith(ENV["s0"][1]) and c < 0.5:
+            if k == "s" and v[1].endswith(ENV["s0"][1]) and len(v[1]) > len(ENV["s0"][1]) and c < 0.5:
                 return self.wrap(('interp', v[1][:-len(ENV["s0"][1])], "s0"), v, depth, kind)
             if c < 0.4 or k is None:
                 return self.wrap(('lit', v), v, depth, kind)
